@@ -468,8 +468,8 @@ theorem toString_eq (v6 : Bool) (h sv : Bytes) : Addr.toString v6 h sv = Uri.toS
 
 theorem dissect_nil : dissect [] = .error .logicError := by decide
 
-/-- from the dissection of a URI to the Address it yields -/
 omit [DecidableEq α] in
+/-- from the dissection of a URI to the Address it yields -/
 theorem value_uri {u h d : Bytes} {num : Bool} {a : α} (hd : dissect u = .ok ⟨h, d, num⟩)
     (h0 : (0 : UInt8) ∉ h) (hc : cstr d = d) (hg : ns.gai ⟨h, d, num⟩ = some a) :
     value ns (.uri u) = some a := by
@@ -628,6 +628,7 @@ theorem group_totality (a : α) (ks : List Ctor) : specRun .totality {} (groupOb
   · intro k _
     exact step_totality _ k
 
+omit [DecidableEq α] in
 /-- every documented spelling of a literal endpoint yields that endpoint (spellings_agree, spellings_agree_v6,
 hostpath_spelling + G1 / G2) -/
 theorem lit_values (L : ns.Lawful) (a : α) (scheme path : Bytes)
@@ -681,6 +682,7 @@ theorem word_no_nul {name : Bytes} (hw : ∀ c ∈ name, isWord c = true) : (0 :
   have := hw 0 h
   revert this; decide
 
+omit [DecidableEq α] in
 /-- every service-name spelling yields the endpoint the services database assigns (name_spelling + G1 / G2) -/
 theorem name_values (L : ns.Lawful) (a : α) (name : Bytes)
     (hreach : ns.gai ⟨ns.niHost a, render (ns.port a), true⟩ = some a)
@@ -784,5 +786,167 @@ def toyNS : NameService ToyAddr where
   v6 a := a.v6
   niHost a := a.host
   niServ a := render a.port
+
+theorem toy_gai_some {c : GaiCall} {a : ToyAddr} (h : toyNS.gai c = some a) :
+    hostOk a.v6 a.host = true ∧ a.host = c.node ∧ a.v6 = c.node.contains 0x3a ∧ toyPort c = some a.port := by
+  simp only [toyNS] at h
+  split at h
+  · rename_i hk
+    cases hp : toyPort c with
+    | none => rw [hp] at h; cases h
+    | some p =>
+      rw [hp] at h
+      simp only [Option.map_some, Option.some.injEq] at h
+      subst h
+      exact ⟨hk, rfl, rfl, rfl⟩
+  · cases h
+
+theorem toyPort_lt {c : GaiCall} {p : Nat} (h : toyPort c = some p) : p < 65536 := by
+  unfold toyPort at h
+  split at h
+  · cases h; omega
+  · split at h
+    · cases h; omega
+    · split at h
+      · cases h
+      · split at h
+        · cases h; omega
+        · cases h
+
+theorem toyPort_render (node : Bytes) (p : Nat) (numeric : Bool) (hp : p < 65536) :
+    toyPort ⟨node, render p, numeric⟩ = some p := by
+  have hd := isDigits_render p
+  have hne : (render p).isEmpty = false := by
+    cases hr : render p with
+    | nil => rw [hr] at hd; simp [isDigits] at hd
+    | cons _ _ => rfl
+  have hs : strtoulReads (render p) = some p := (Lem.render_parse p).2.2 (by omega)
+  simp only [toyPort, hne, Bool.false_eq_true, if_false, hs]
+  congr 1
+  omega
+
+/-- G1 / G2 are satisfiable: the toy resolver is lawful -/
+theorem toyNS_lawful : toyNS.Lawful where
+  port_numeric := by
+    intro c a v hg hv
+    obtain ⟨_, _, _, hp⟩ := toy_gai_some hg
+    unfold toyPort at hp
+    split at hp
+    · rename_i he
+      have : c.serv = [] := by cases hs : c.serv <;> simp [hs] at he ⊢
+      have hnone : strtoulReads [] = none := by decide
+      rw [this, hnone] at hv
+      cases hv
+    · rw [hv] at hp
+      simp only [Option.some.injEq] at hp
+      exact hp.symm
+  port_lt := by
+    intro c a hg
+    exact toyPort_lt (toy_gai_some hg).2.2.2
+  serv_text := by
+    intro c a _
+    rfl
+  host_text := by
+    intro c a hg
+    exact (toy_gai_some hg).1
+  literal := by
+    intro c a hg numeric
+    obtain ⟨hk, hh, hv, hp⟩ := toy_gai_some hg
+    have hlt := toyPort_lt hp
+    have hcont : a.host.contains 0x3a = a.v6 := by rw [hh, hv]
+    show toyNS.gai ⟨a.host, render a.port, numeric⟩ = some a
+    simp only [toyNS, hcont, hk, if_true, toyPort_render a.host a.port numeric hlt, Option.map_some]
+  literal_noserv := by
+    intro c a hg h0
+    obtain ⟨hk, hh, hv, _⟩ := toy_gai_some hg
+    have hcont : a.host.contains 0x3a = a.v6 := by rw [hh, hv]
+    have h0' : a.port = 0 := h0
+    show toyNS.gai ⟨a.host, [], false⟩ = some a
+    simp only [toyNS, hcont, hk, if_true, toyPort, List.isEmpty_nil, Option.map_some]
+    rw [← h0']
+
+/-! ## the two theorems as `./check C11` / `./check C12` use them -/
+
+namespace C11
+/-- the predicate of `./check C11` -/
+def specRun := Uri.specRun .totality
+
+/-- `Props/C11.lean: spec_holds_on_model` -/
+theorem model_satisfies_spec {α : Type} [DecidableEq α] (ns : NameService α) (history : List (Op α)) :
+    ∃ s, specRun {} (modelTrace ns history) = .ok s := model_satisfies_totality ns history
+end C11
+
+namespace C12
+/-- the predicate of `./check C12` -/
+def specRun := Uri.specRun .fidelity
+
+/-- `Props/C12.lean: spec_holds_on_model` -/
+theorem model_satisfies_spec {α : Type} [DecidableEq α] (ns : NameService α) (L : ns.Lawful)
+    (history : List (Op α)) (hok : histOk ns history = true) :
+    ∃ s, specRun {} (modelTrace ns history) = .ok s := model_satisfies_fidelity ns L history hok
+end C12
+
+/-! ## non-vacuity: a concrete history, and traces the predicates reject -/
+
+namespace Demo
+def b (s : String) : Bytes := ofChars s.toList
+def a4 : ToyAddr := ⟨false, b "127.0.0.1", 8080⟩
+def a40 : ToyAddr := ⟨false, b "10.0.0.1", 0⟩
+def a6 : ToyAddr := ⟨true, b "fe80::1%eth0", 65535⟩
+def a480 : ToyAddr := ⟨false, b "1.2.3.4", 80⟩
+def a680 : ToyAddr := ⟨true, b "::ffff:1.2.3.4", 80⟩
+
+/-- every kind of operation and of outcome: values, each exception class, a failed lookup, embedded NUL,
+IPv4 / IPv6 literal groups (port 0 adds the service-less spellings), service-name groups -/
+def history : List (Op ToyAddr) := [
+  .uri (b "http://[::1]:8080/a/b?c"), .uri [], .uri (b "host/pa\nth"), .uri (b "h:99999"), .uri (b "99999://h"),
+  .uri (b "h:99999999999999999999"), .pair (b "localhost") (b " +80"), .pair (b "h") (b "-1"),
+  .pair (b "h") (b "nosuch"), .pair [0x68] [0x38, 0x30, 0x00, 0x78], .uri (b "a:b"),
+  .lit a4 (b "tcp") (b "x?y=http://h:80/"), .lit a40 (b "x") (b "p:1"), .lit a6 (b "") (b ""),
+  .name a480 (b "http"), .name a680 (b "http")]
+
+def accepted (r : Except String SpecSt) : Bool := match r with | .ok _ => true | .error _ => false
+def failure (r : Except String SpecSt) : String := match r with | .ok _ => "" | .error e => e
+
+example : histOk toyNS history = true := by decide
+example : (modelTrace toyNS history).length = 52 := by decide
+example : accepted (C12.specRun {} (modelTrace toyNS history)) = true := by decide
+example : accepted (C11.specRun {} (modelTrace toyNS history)) = true := by decide
+
+/-- the domain matters: a scheme that is not `\w*` is outside the documented formats, the model (like the
+library) takes "h-t:" for a host name, the lookup fails, the predicate says so -/
+example : failure (C12.specRun {} (modelTrace toyNS [.lit a4 (b "h-t") []])) =
+    "uri 682d743a2f2f3132372e302e302e313a38303830: a documented spelling of a literal endpoint was rejected (throw system_error)" := by
+  decide
+
+def uri1 : Input := .uri (b "1.2.3.4:65616")
+def gai1 : GaiObs := ⟨some (b "1.2.3.4"), some (b "65616"), true⟩
+def ok80 : OkObs := ⟨b "1.2.3.4", b "80", 80, false, b "1.2.3.4:80", .eq⟩
+
+/-- C11 rejects: a crash, a hang, a foreign exception, a dead child, a missing outcome -/
+example : accepted (C11.specRun {} [.construct uri1 none (.died "sig=11")]) = false := by decide
+example : accepted (C11.specRun {} [.construct uri1 none (.threw (.foreign "nonstd"))]) = false := by decide
+example : accepted (C11.specRun {} [.construct uri1 none .missing]) = false := by decide
+example : accepted (C11.specRun {} [.abort "hang: construction did not return within 3 s"]) = false := by decide
+/-- ... and does not look at the C12 clauses -/
+example : accepted (C11.specRun {} [.construct uri1 (some gai1) (.ok (some ok80))]) = true := by decide
+
+/-- C12 rejects: a wrapped port (the kind of trace the seeded changes C12_agentC / C12_r4 / C12_r5 produce) -/
+example : failure (C12.specRun {} [.construct uri1 (some gai1) (.ok (some ok80))]) =
+    "uri 312e322e332e343a3635363136: numeric service 65616 reached getaddrinfo (would be wrapped to port 80)" := by decide
+/-- a `Service()` that is not the decimal port, a `to_string` without brackets, a failed re-parse -/
+example : accepted (C12.specRun {} [.construct (.uri (b "1.2.3.4:80")) (some { gai1 with serv := some (b "80") })
+    (.ok (some { ok80 with serv := b "http" }))]) = false := by decide
+example : accepted (C12.specRun {} [.construct (.uri (b "[::1]:80")) (some ⟨some (b "::1"), some (b "80"), true⟩)
+    (.ok (some ⟨b "::1", b "80", 80, true, b "::1:80", .eq⟩))]) = false := by decide
+example : accepted (C12.specRun {} [.construct (.uri (b "1.2.3.4:80")) (some { gai1 with serv := some (b "80") })
+    (.ok (some { ok80 with reparse := .ne }))]) = false := by decide
+/-- a spelling of a literal endpoint that is rejected / reports another port; unequal spellings -/
+example : accepted (C12.specRun {} [.litBegin (b "1.2.3.4") 80 false,
+    .construct (.uri (b "1.2.3.4/p?u=x://y")) (some ⟨some (b "y"), some (b "1"), false⟩) (.threw .systemError)]) = false := by decide
+example : accepted (C12.specRun {} [.litBegin (b "1.2.3.4") 81 false,
+    .construct (.uri (b "1.2.3.4:80")) (some { gai1 with serv := some (b "80") }) (.ok (some ok80))]) = false := by decide
+example : accepted (C12.specRun {} [.litBegin (b "1.2.3.4") 80 false, .litEnd true false "n=8 allok=1 alleq=0"]) = false := by decide
+end Demo
 
 end SockModel.Uri
